@@ -3,7 +3,7 @@ import core
 from concurrent.futures import ThreadPoolExecutor
 from checks.generic import compile_gen, first_index, COMMON_TRUSTED
 
-PROPS = ["c19_wire_only_public", "c19_no_private_on_wire", "c19_private_stays_local", "c19_agent_replace",
+PROPS = ["c19_wire_only_public", "c19_no_private_on_wire", "c19_private_stays_local", "c19_agent_replace", "c19_agent_replace_faulty", "c19_best_effort_cleanup_refuted",
          "c19_offered_accepted_spec", "c19_old_p384_refuted"]
 
 TRUSTED = [
